@@ -335,6 +335,17 @@ func runC14(c *Ctx, w *World, r *Report) {
 				bad = "element index does not run 0,1,2,..."
 				return
 			}
+			// every element is packed: the store is executed in every round of the loop (the low w bits of a value with
+			// higher bits set are still its element)
+			if iv.Phi != nil {
+				hb := iv.Phi.Block()
+				for _, pr := range hb.Preds {
+					if hb.Dominates(pr) && !st.Block().Dominates(pr) {
+						bad = "an element can be skipped: the store at " + w.InstrPos(st) + " is not executed in every round of the loop over the values (the property takes the low w bits of EVERY value, over-wide ones included)"
+						return
+					}
+				}
+			}
 			a, b, ok := asBin(st.Val, token.OR)
 			if !ok {
 				bad = "destination word is not OR-ed into"
